@@ -14,6 +14,9 @@ def leaf_replay(strings_from):
         off, ln = inputs.get(0, 1), inputs.get(1, 0)
         s = bytes((inputs.get(4 + off + i, 0x20) & 0xff) for i in range(ln))
         cands = []
+        cands.append(s + b"\n")
+        cands.append(s + b" rax, rcx\n")
+        cands.append(b"nop\n" + s + b"\nnop\n")
         for pre in (b"mov rax, ", b"mov ", b"lea rax, ", b"jmp ", b"add qword ", b"vpaddd ymm0, ymm1, ", b""):
             for post in (b"", b", rax", b", 1"):
                 cands.append(pre + s + post + b"\n")
@@ -42,7 +45,7 @@ def run(tier, only=None):
         ("c09.opds.2x3", "tok_opds.c", ["-DNOPD=2", "-DOPW=3"], [], None, 110, 3000),
         ("c09.opds.6x1", "tok_opds.c", ["-DNOPD=6", "-DOPW=1"], [], None, 110, 3000),
     ]
-    for t in ("T_REGSTR", "T_ADD", "T_CONST", "T_INDEX", "T_TYPE", "T_KW", "T_MEMTOK", "T_IMMTOK", "T_STRTOREG"):
+    for t in ("T_REGSTR", "T_ADD", "T_CONST", "T_INDEX", "T_TYPE", "T_KW", "T_MEMTOK", "T_IMMTOK", "T_STRTOREG", "T_INSTRKEY"):
         ll = leaflen if t not in ("T_KW", "T_MEMTOK") else (7 if t == "T_KW" else min(leaflen, 9))
         units.append(("c09.leaf.%s" % t[2:].lower(), "tok_leaf.c", ["-D" + t, "-DLEAFLEN=%d" % ll], [], "leaf", 110, 3000))
     if only:
